@@ -35,6 +35,19 @@ Theorem C01_roundtrip_start_read_end :
 Proof. exact roundtrip_sre. Qed.
 Print Assumptions C01_roundtrip_start_read_end.
 
+(* Both directions, any interleaving of whole histories: the receiver never raises an error,
+   and unless a SEND is refused every phase delivers exactly what was sent. *)
+Theorem C01_roundtrip_bidirectional :
+  forall api, api = ApiComplete \/ api = ApiMessage ->
+  forall (phases : list (bool * list msg)) (A B : stream), duplex A B ->
+    match session api A B phases with
+    | SessDone A' B' out => out = map (fun p => map payload_of (snd p)) phases /\ duplex A' B'
+    | SessSendRefused => True
+    | SessRecvFailed => False
+    end.
+Proof. exact session_roundtrip. Qed.
+Print Assumptions C01_roundtrip_bidirectional.
+
 (* non-vacuity: two fresh plaintext streams, and two freshly keyed streams, are paired *)
 Example C01_new_streams_paired : duplex new_stream new_stream /\ rclean new_stream.
 Proof.
